@@ -552,7 +552,7 @@ func init() {
 
 func init() {
 	register(&Rule{
-		ID: "stat.node-per-resource", Props: []string{"C01", "C02", "C04"}, Floor: 3,
+		ID: "stat.node-per-resource", Props: []string{"C01", "C02", "C04", "C15"}, Floor: 3,
 		Doc: "stat.GetOrCreateResourceNode returns, on every path, either the node registered under the requested resource name (a lookup of resNodeMap by that very name, possibly through GetResourceNode) or a node freshly created for that name by NewResourceNode(name, ...): no two resource names ever share a statistic node, so passes, completions and the in-flight gauge are attributed to the resource that was entered and a rule's window counts only its own resource",
 		Run: func(c *Ctx) {
 			f := c.P.Func("core/stat.GetOrCreateResourceNode")
